@@ -223,6 +223,9 @@ class Topology(ABC):
         for pi in self.nodes[name].interface_list:
             # sub-interfaces can be connected to services on their own
             for i in (pi,) + tuple(pi.interface_list):
+                if not self.graph_model.node_exists(node_id=i.node_id, label=ABCPropertyGraph.CLASS_ConnectionPoint):
+                    # went with its peer a moment ago (two services of this node that peer with each other)
+                    continue
                 # disconnect if connected to a network service
                 peers = i.get_peers(itype=InterfaceType.ServicePort)
                 if peers:
@@ -290,6 +293,9 @@ class Topology(ABC):
         for pi in self.facilities[name].interface_list:
             # sub-interfaces can be connected to services on their own
             for i in (pi,) + tuple(pi.interface_list):
+                if not self.graph_model.node_exists(node_id=i.node_id, label=ABCPropertyGraph.CLASS_ConnectionPoint):
+                    # went with its peer a moment ago (two services of this node that peer with each other)
+                    continue
                 # disconnect if connected to a network service
                 peers = i.get_peers(itype=InterfaceType.ServicePort)
                 if peers:
